@@ -170,7 +170,46 @@ def run_instance(inst, drv_reqs, want_solve=True):
                          "alleles": list(alleles.keys()), "major_novel": lib.frac(float(prof.major_novel)), "gap": lib.frac(float(prof.gap)), "ks": ks})
     est = major.estimate_major(gene, cov, cn_sol, "cbc")
     out.update({"snap": snap, "result": result, "estimate": est})
+    # the same evidence object asked about a SECOND structure made of the same configurations with other multiplicities (as
+    # genotype() does when the copy-number stage returns several structures): the answer must be that of a fresh object
+    out["second"] = None
+    if inst.get("second_structure"):
+        from aldy.solutions import CNSolution
+        try:
+            cn2 = CNSolution(gene, 0, list(inst["second_structure"]))
+            again = major.estimate_major(gene, cov, cn2, "cbc")
+            fresh_inst = instances.major_from_desc(dict(describe(inst), structure=list(inst["second_structure"])))
+            fresh = major.estimate_major(fresh_inst["gene"], fresh_inst["cov"], fresh_inst["cn_sol"], "cbc")
+            out["second"] = (sorted(map(lambda s_: (sol_str(s_)["alleles"], sol_str(s_)["added"], round(s_.score, 6)), again)),
+                             sorted(map(lambda s_: (sol_str(s_)["alleles"], sol_str(s_)["added"], round(s_.score, 6)), fresh)))
+        except Exception as e:
+            out["second"] = ("raised " + type(e).__name__ + ": " + str(e)[:80], None)
     return out
+
+
+def band_instance(r, gdesc):
+    """two default copies planted, plus a function-altering SNP nobody carries whose allele fraction lies between the
+    evidence-filter thresholds of a two-copy and a three-copy structure (threshold / (copies + 0.5)): asked about the
+    structures 2 x *1 and 3 x *1 in turn, the filter keeps the variant for the second only"""
+    from aldy.solutions import CNSolution
+    gene, gid = instances.load_gene(gdesc)
+    if "1" not in gene.cn_configs or "1" not in gene.alleles:
+        return None
+    mi = sorted(gene.alleles["1"].minors)[0]
+    cn2 = CNSolution(gene, 0, ["1", "1"])
+    table = instances.plant_table(r, gene, cn2, [("1", mi), ("1", mi)], with_minors=False, noise=False)
+    have = {t[0] for t in table if t[1] != "_"}
+    cand = [m for m in gene.mutations if gene.is_functional(m) and ">" in m[1] and len(m[1]) == 3 and m[0] not in have and cn2.position_cn(m[0]) == 2]
+    if not cand:
+        return None
+    m = r.choice(cand)
+    table = [t for t in table if t[0] != m[0]]
+    table.append([m[0], m[1], [[60, 40, 17]]])     # 17 % : above 0.5 / 3.5 = 14.3 %, below 0.5 / 2.5 = 20 %
+    table.append([m[0], "_", [[60, 40, 83]]])
+    desc = {"gene": instances.gene_short(gdesc), "structure": ["1", "1"], "planted": [["1", mi], ["1", mi]], "table": table, "indel_table": None, "profile": {}}
+    inst = instances.major_from_desc(desc)
+    inst["second_structure"] = ["1", "1", "1"]
+    return inst
 
 
 def describe(inst):
@@ -193,6 +232,10 @@ def tie(ctx):
     for fn, cj in lib.load_corpus(PID):
         insts.append(instances.major_from_desc(cj))
     genes = instances.gene_pool(r, quick)
+    for j_ in range(6 if quick else 40):
+        bi = band_instance(r, genes[(3 * j_ + 1) % len(genes)])
+        if bi is not None:
+            insts.append(bi)
     n = 260 if quick else 4000
     skipped = 0
     while len(insts) < n:
@@ -209,6 +252,8 @@ def tie(ctx):
             put[inst["gene_id"]] = True
             reqs.append({"op": "put", "id": inst["gene_id"], "value": views.gene_view(inst["gene"], inst["positions"])})
         inst["req_start"] = len(reqs)
+        if not inst.get("second_structure") and (insts.index(inst) % 3 == 0) and "1" in inst["structure"]:
+            inst["second_structure"] = sorted(list(inst["structure"]) + ["1"])
         inst["real"] = run_instance(inst, reqs)
         inst["req_end"] = len(reqs)
     outs = lib.driver_batch(reqs)
@@ -229,6 +274,12 @@ def tie(ctx):
         fam["major_decision"]["cases"] += 1
         if of["has_candidates"] != real["has_candidates"] or (not real["has_candidates"] and real["estimate"] != []):
             fam["major_decision"]["disagreements"].append({"why": "estimate_major emptiness rule differs from the model", "input": desc})
+        if real.get("second") is not None:
+            stats["second_structure_on_same_evidence"] += 1
+            a_, b_ = real["second"]
+            if a_ != b_:
+                violations.append({"why": f"asked about the structure {inst['second_structure']} after {inst['structure']} on ONE evidence object estimate_major answers {str(a_)[:160]}, on a fresh object {str(b_)[:160]}",
+                                   "input": dict(desc, second_structure=inst["second_structure"]), "signature": "c02:answer_depends_on_earlier_structure"})
         if real["has_candidates"]:
             fam["major_structure"]["cases"] += 1
             if real["snap"] is None:
